@@ -711,11 +711,40 @@ var reOffIdx = regexp.MustCompile(`\(\+ \(s\.off ([A-Za-z0-9_.$!@|]+)\) ([A-Za-z
 // (+ (s.off R) bv$x), at every ground index G for which (+ (s.off R) G) occurs in the VC. This is
 // E-matching modulo the "offset + index" shape of slice accesses, which the solvers' triggers
 // cannot do. Sound: instances of hypotheses.
+// offIdxTerms: all occurrences of (+ (s.off R) G) in text, with R and G arbitrary balanced terms; returned like the
+// submatches of reOffIdx: [whole, R, G]
+func offIdxTerms(text string) [][]string {
+	var out [][]string
+	const pre = "(+ (s.off "
+	for pos := 0; ; {
+		k := strings.Index(text[pos:], pre)
+		if k < 0 {
+			break
+		}
+		k += pos
+		pos = k + len(pre)
+		re := balancedTerm(text, pos)
+		if re <= pos || re+2 > len(text) || text[re] != ')' || text[re+1] != ' ' {
+			continue
+		}
+		gs := re + 2
+		ge := balancedTerm(text, gs)
+		if ge <= gs || ge >= len(text) || text[ge] != ')' {
+			continue
+		}
+		out = append(out, []string{text[k : ge+1], text[pos:re], text[gs:ge]})
+	}
+	return out
+}
+
 func indexHints(lines []string, goal string) []string {
 	ground := map[string][]string{} // slice term -> ground index terms
 	seen := map[string]bool{}
 	add := func(text string) {
-		for _, m := range reOffIdx.FindAllStringSubmatch(text, -1) {
+		for _, m := range offIdxTerms(text) {
+			if strings.Contains(m[2], "bv$") || strings.Contains(m[2], "tf$") || strings.Contains(m[2], "lf$") || strings.Contains(m[2], "fr$") || len(m[2]) > 400 {
+				continue // not ground (mentions a bound variable) or too large to be a useful instance
+			}
 			if strings.HasPrefix(m[2], "bv$") || strings.HasPrefix(m[2], "ak") || strings.HasPrefix(m[2], "sk$") && false {
 				continue
 			}
@@ -723,6 +752,30 @@ func indexHints(lines []string, goal string) []string {
 			if !seen[k] {
 				seen[k] = true
 				ground[m[1]] = append(ground[m[1]], m[2])
+			}
+		}
+	}
+	// SSA temporaries that name a slice: (assert (= tN <term>)) - an access through the temporary is an access to the
+	// term it stands for (hypotheses written over the heap mention the term, the code mentions the temporary)
+	defs := map[string]string{}
+	for _, l := range lines {
+		if strings.HasPrefix(l, "(assert (= t") && strings.HasSuffix(l, "))") {
+			body := l[len("(assert (= ") : len(l)-2]
+			if k := strings.Index(body, " "); k > 0 && balancedTerm(body, k+1) == len(body) {
+				defs[body[:k]] = body[k+1:]
+			}
+		}
+	}
+	addRaw := add
+	add = func(text string) {
+		addRaw(text)
+		for _, m := range offIdxTerms(text) {
+			if d, ok := defs[m[1]]; ok && !strings.Contains(m[2], "bv$") && len(m[2]) <= 400 {
+				k := d + "|" + m[2]
+				if !seen[k] {
+					seen[k] = true
+					ground[d] = append(ground[d], m[2])
+				}
 			}
 		}
 	}
@@ -735,7 +788,12 @@ func indexHints(lines []string, goal string) []string {
 	var out []string
 	n := 0
 	nsk := 0
-	work := append([]string{}, lines...)
+	// latest hypotheses first: the ones about the current loop iteration / the state at the obligation are the ones a
+	// proof needs, and the number of instances is capped
+	work := make([]string, 0, len(lines))
+	for k := len(lines) - 1; k >= 0; k-- {
+		work = append(work, lines[k])
+	}
 	for pass := 0; pass < 2; pass++ {
 		for li := 0; li < len(work); li++ {
 			l := work[li]
@@ -743,7 +801,7 @@ func indexHints(lines []string, goal string) []string {
 				continue
 			}
 			pos := 0
-			for n < 60 {
+			for n < 90 {
 				s2, e2, nm, so, bd, ok := findForall(l, pos)
 				if !ok {
 					break
@@ -752,7 +810,7 @@ func indexHints(lines []string, goal string) []string {
 				if so != "Int" || strings.Contains(bd, "(forall ") {
 					continue
 				}
-				for _, m := range reOffIdx.FindAllStringSubmatch(bd, -1) {
+				for _, m := range offIdxTerms(bd) {
 					if m[2] != nm {
 						continue
 					}
@@ -1276,6 +1334,7 @@ type SolveOpts struct {
 	OutDir   string
 	Parallel int
 	Seed     int
+	Known    map[string]bool // obligations recorded as known findings (short attempt only)
 }
 
 var reValue = regexp.MustCompile(`\(\s*((?:\([^()]*\))|(?:\|[^|]*\|)|[^\s()]+)\s+((?:\(-\s*\d+\))|[^\s()]+)\s*\)`)
@@ -1370,6 +1429,12 @@ func solveOne(o *Obligation, opt SolveOpts, rec func(string, float64, bool)) {
 		if v != "unsat" && v != "sat" {
 			o.Verdict = "unknown"
 		}
+		return
+	}
+	if opt.Known[o.Name] {
+		// a recorded known finding: it is reported as such whatever the solvers say within the full budget; the short
+		// attempt above is enough to notice if it starts to hold (then the entry is stale, which the report says)
+		o.Verdict, o.Solver, o.Output = "unknown", solvers[0].name, out
 		return
 	}
 	first := v
